@@ -7,13 +7,15 @@ using namespace vk;
 struct MFile { std::string dir, name, data; long mtime; };
 struct Population { std::string name; std::vector<MFile> files; std::vector<MFile> extra; };
 
-static std::vector<Population> populations() {
-  std::vector<Population> v; long t = 999990000;
+static std::vector<Population> populations(long now = 1000000000) {
+  std::vector<Population> v; long t = now - 10000;
   v.push_back({"empty", {}, {}});
   v.push_back({"one-new", {{"new", "1000.1.h", "Subject: a\n\nbody\n", t + 1}}, {}});
   v.push_back({"two-dots-nonl", {{"new", "1001.1.h", "Subject: dots\n\n.\n..x\n.line\nlast", t + 1}, {"cur", "1000.2.h:2,S", "X: 1\nY: 2\n\nl1\nl2\nl3\n", t + 2}}, {}});
   v.push_back({"three-edge", {{"cur", "1002.3.h:2,", "", t + 1}, {"new", "1003.4.h", "Header-Only: x\n", t + 2}, {"new", "1004.5.h", "A: b\n\n\n\nx\n", t + 3}},
-               {{"new", ".hidden", "ignored\n", t}, {"new", "2000.9.future", "from the future\n", 1000000000 + 50}, {"tmp", "stale.tmp", "old\n", 1000000000 - 200000}, {"tmp", "fresh.tmp", "new\n", 1000000000 - 10}}});
+               {{"new", ".hidden", "ignored\n", t}, {"new", "2000.9.future", "from the future\n", now + 50}, {"tmp", "stale.tmp", "old\n", now - 200000}, {"tmp", "fresh.tmp", "new\n", now - 10}}});
+  // stored with CR LF line ends (a foreign delivery agent, an import): the stored bytes are what is shown, so every CR is sent, followed by the CR LF of the protocol
+  v.push_back({"crlf-stored", {{"new", "1005.6.h", "Subject: crlf\r\nX: y\r\n\r\nline one\r\n.dot\r\n\r\nlast\r\n", t + 1}, {"cur", "1006.7.h:2,S", "A: b\n\nbare cr \r in a line\r\n\r\nend\n", t + 2}}, {}});
   return v;
 }
 
@@ -70,7 +72,8 @@ struct C19 : Scenario {
       popup_cmds = {"USER alice", "USER ", "USER a b", "PASS secret", "PASS ", "PASS two words", "APOP bob 0123456789abcdef", "APOP nospace", "NOOP", "QUIT", "STAT", "LIST", "RETR 1", "DELE 1", "junk", "user carol", "pass x"};
       return;
     }
-    auto pops = populations();
+    if (cfg.geti("epoch", 0)) k.clock = cfg.geti("epoch", 0);   // e.g. a date after 2038-01-19: time stamps that need more than 31 bits
+    auto pops = populations(k.clock);
     int pi = w.ex->choose_n((int) pops.size() + 1, BK_FREE);
     root = (pi == (int) pops.size());
     pop = pops[root ? 1 : pi];
